@@ -52,7 +52,9 @@ PAIR_NAMES = [('uuid', 'uuid2'), ('uuid', 'uuid_in_list'), ('uuid_in_dict', 'mpr
               ('cyclic', 'cyclic'), ('shared_list', 'shared_list'), ('cyclic', 'uuid'), ('cyclic_twice', 'depth'),
               ('long_str', 'long_str_nested'), ('commented', 'commented'), ('long_list', 'tiny'), ('tiny3', 'long_list'),
               ('fits_exactly', 'tiny3'), ('reentrant', 'reentrant'), ('oldstyle', 'uuid'), ('h_re_sub', 'h_re'),
-              ('comment_wrapping', 'commented'), ('ast', 'ast'), ('h_pred', 'h_unreg')]
+              ('comment_wrapping', 'commented'), ('commented', 'many_comments'), ('comment_wrapping', 'many_comments'),
+              ('uuid', 'h_pred_lazy'), ('h_pred_lazy', 'h_sub_b'), ('h_pred_lazy', 'h_pred_lazy'),
+              ('many_floats', 'containers'), ('ast', 'ast'), ('h_pred', 'h_unreg')]
 PROBE_RANGES = {}   # probe -> (funcname, lo, hi)
 
 
@@ -241,6 +243,9 @@ def setup():
     add(('h_base2', 'hlazy', [HBase2(3), HLeaf()], {}))
     # -- directly registered / predicate / unregistered / failing
     add(('h_direct', 'plain', HDirect(1, [2]), {}))
+    add(('h_pred_lazy', 'hlazy', HPred(uuid.UUID(int=31), HSubB(2)), {}))
+    add(('many_comments', 'layout', [comment(i, 'note %d' % i) for i in range(140)], {}))
+    add(('many_floats', 'layout', [i / 7 for i in range(150)], {'width': 60}))
     add(('h_pred', 'plain', HPred('p'), {}))
     add(('h_unreg', 'plain', [HUnreg(), 1], {}))
     add(('h_bad', 'plain', [1, HBad(), 2], {}))
@@ -389,16 +394,18 @@ def _pick_item(rng):
 
 def generate(rng, idx, tier):
     kind = idx % 8
-    if kind >= 6 and PAIRS and rng.random() < 0.75:
+    if kind >= 4 and PAIRS and rng.random() < 0.85:
         # stratified sweep (seed-indexed, not drawn): pair j of a fixed list, thread A parked at its
         # k-th shared-state yield point while B runs to completion; k sweeps 1..K_A over successive j
-        j = (idx // 8) * 2 + (kind - 6)
+        j = (idx // 8) * 4 + (kind - 4)
         a, b = PAIRS[j % len(PAIRS)]
         rot = j // len(PAIRS)
         if rot % 2:
             a, b = b, a
         ka = max(1, SERIAL_SHARED[a])
-        k = 1 + (rot // 2) % ka
+        # stride through 1..ka with a step coprime to ka, so that a short batch samples the whole range
+        step = next(st for st in (7, 5, 3, 11, 13, 1) if ka % st)
+        k = 1 + ((rot // 2) * step) % ka
         est = SERIAL_STEPS[a] + SERIAL_STEPS[b]
         return dict(threads=[[a], [b]],
                     sched=dict(seed=rng.randrange(1 << 30), opcode=False, max_steps=est * 60 + 20000,
@@ -428,7 +435,7 @@ def generate(rng, idx, tier):
     elif kind in (2, 3):
         sp.update(policy='biased', p=rng.choice([0.0, 0.001, 0.01]),
                   p_shared=rng.choice([0.1, 0.3, 0.6]))
-    elif kind in (4, 5):
+    elif kind in (4, 5, 6):
         dmax = 3 if tier == 'quick' else 8
         sp.update(policy='pct', d=rng.randrange(1, dmax + 1))
     else:
